@@ -84,9 +84,10 @@ Theorem C18_elementary_safe : forall loc scale y,
 Proof. exact elementary_safe_all. Qed.
 Print Assumptions C18_elementary_safe.
 
-(* the spline: knots strictly increasing from lo to hi in both arrays, positive derivatives, lo <= 0 <= hi; EVERY real x
-   (interval ends, knots, out of bounds).  rqs_inv at full strength (not _partial): the strict positivity of the
-   discriminant b^2 - 4ac = (dk(Dy-t) - dk1 t)^2 + 4 s^2 t (Dy-t) and -b - sqrt(..) < 0 are proved, not assumed *)
+(* the spline: knots strictly increasing from lo to hi in both arrays, positive derivatives -- ANY interval, containing 0 or not
+   (the robust replacement value is interval[0] since fix c2cb03d); EVERY real x (interval ends, knots, out of bounds).
+   rqs_inv at full strength (not _partial): the strict positivity of the discriminant
+   b^2 - 4ac = (dk(Dy-t) - dk1 t)^2 + 4 s^2 t (Dy-t) and -b - sqrt(..) < 0 are proved, not assumed *)
 Theorem C18_rqs_safe : forall xp yp dv lo hi x, rqs_valid xp yp dv lo hi ->
   let en := en3 x lo hi xp yp dv in
   Safe en (rqs_fwd_t 3 (Var 1) (Var 2) (Var 0)) /\
@@ -132,6 +133,12 @@ Theorem C18_rqs_inv_old_unsafe_at_lo_refuted : ~ Safe en_init_lo (rqs_inv_old_t 
 Proof. exact rqs_inv_old_unsafe_at_lo_refuted. Qed.
 Print Assumptions C18_rqs_inv_old_unsafe_at_lo_refuted.
 
+(* D9: the literal-0 replacement value with an interval that excludes 0 (knots [2,3,5,6], derivatives 1/2, y = 0):
+   b^2 - 4ac = -71/4 < 0 under the square root of the unselected branch *)
+Theorem C18_rqs_inv_zero_unsafe_refuted : ~ Safe en_zero_out (rqs_inv_zero_t 3 (Var 1) (Var 2) (Var 0)).
+Proof. exact rqs_inv_zero_unsafe_refuted. Qed.
+Print Assumptions C18_rqs_inv_zero_unsafe_refuted.
+
 (* ---------- log_prob's post-processing ---------- *)
 Theorem C18_lp_never_nan : forall p_z ld v, In v (log_prob_classes p_z ld) -> v <> NaN.
 Proof. exact lp_never_nan. Qed.
@@ -148,3 +155,6 @@ Example C18_example_repaired_at_1 : Safe (en_of [1; 3; leaky_grad ROps 3; leaky_
 Proof. apply leaky_inv_safe_all. apply Rgt_not_eq, leaky_grad_pos. Qed.
 Example C18_example_classes : log_prob_classes Fin PInf = [PInf] /\ log_prob_classes PInf NInf = [NInf] /\ log_prob_classes Fin Fin = [Fin; PInf; NInf].
 Proof. repeat split; reflexivity. Qed.
+(* the D9 witness (interval (2,6) excludes 0, out-of-interval input 0) under the repaired formula *)
+Example C18_example_repaired_excl0 : Safe (en3 0 2 6 [2; 3; 5; 6] [2; 3; 5; 6] [/ 2; / 2; / 2; / 2]) (rqs_inv_t 3 (Var 1) (Var 2) (Var 0)).
+Proof. apply rqs_inv_safe_all. exact rqs_valid_excl0. Qed.
